@@ -189,17 +189,28 @@ def c03b(chk):
     f = chk.fn(SP + "project")
     if f is None:
         return
+    its = IT.iterations(prog, f)
+    unit = [f] + prog.closures_of(f.path)
     fs = an.calls(f, PROJ + "Projection::from_shapes")
     fz = an.calls(f, SCS + "from_zeros")
-    pu = an.calls(f, PROJ + "Projection::project_unchecked")
-    iw = an.calls(f, PROJ + "Projected::<'a>::into_weighted")
-    au = an.calls(f, PROJ + "Projected::<'a>::add_unchecked")
-    nx = [(b, t) for b, t in f.calls() if callee_is(t["callee"], N.ITER_NEXT)]
-    if not (len(fs) == len(fz) == len(pu) == len(iw) == len(au) == len(nx) == 1):
-        chk.fail("C03.b", "Spectrum::project/shape", f.loc(), "expected one each of from_shapes, from_zeros, project_unchecked, into_weighted, add_unchecked, next")
+    pu = [(g, b, t) for g in unit for b, t in an.calls(g, PROJ + "Projection::project_unchecked")]
+    iw = [(g, b, t) for g in unit for b, t in an.calls(g, PROJ + "Projected::<'a>::into_weighted")]
+    au = [(g, b, t) for g in unit for b, t in an.calls(g, PROJ + "Projected::<'a>::add_unchecked")]
+    it = None
+    if len(pu) == 1:
+        inside = [x for x in its if x.body is pu[0][0] and pu[0][1] in x.blocks]
+        it = min(inside, key=lambda x: len(x.blocks)) if inside else None
+    if not (len(fs) == len(fz) == len(pu) == len(iw) == len(au) == 1) or it is None or not (pu[0][0] is iw[0][0] is au[0][0]):
+        chk.fail("C03.b", "Spectrum::project/shape", f.loc(), "expected one each of from_shapes, from_zeros, project_unchecked, into_weighted, add_unchecked, inside one iteration over the cells")
         return
+    g = it.body
+    chk.fns_analysed.add(g.path)
+    pub, put = pu[0][1], pu[0][2]
+    iwb, iwt = iw[0][1], iw[0][2]
+    aub, aut = au[0][1], au[0][2]
+    it_bb = it.bb if it.parent is f else None
     tb = an.try_branch_of(f, fs[0][0])
-    chk.ob("C03.b", "project/validation-first", tb is not None and all(an.dominated_by_edge(f, tb[1], tb[2], b) for b in (fz[0][0], pu[0][0], nx[0][0])), f.loc(fs[0][0]),
+    chk.ob("C03.b", "project/validation-first", tb is not None and it_bb is not None and all(an.dominated_by_edge(f, tb[1], tb[2], b) for b in (fz[0][0], it_bb)), f.loc(fs[0][0]),
            "Projection::from_shapes(..)? succeeds before the result is allocated and before any cell is projected")
     # from_shapes(self.shape, target): roles
     s0, i0 = f.slice_locals(fs[0][1]["args"][0])
@@ -212,54 +223,42 @@ def c03b(chk):
     sz, iz = f.slice_locals(fz[0][1]["args"][0])
     chk.ob("C03.b", "project/result=from_zeros(target)", not any(callee_is(x[1]["callee"], SP + "shape") for x in iz["calls"]), f.loc(fz[0][0]), "the accumulator has the target shape and starts at zero")
     # iteration: zip(self.array.iter(), self.array.iter_indices().map(Count)), nothing else
-    itl = op_local(nx[0][1]["args"][0])
-    itp = f.resolve_ptr(itl) if itl is not None else None
-    ad, info = adaptors_of(f, {"k": "copy", "place": {"l": itp[0], "p": []}} if itp else nx[0][1]["args"][0], nx[0][0])
-    ok_iter = sorted(ad) == ["into_iter", "iter", "iter_indices", "map", "zip"]
-    zips = [x for x in info["calls"] if callee_is(x[1]["callee"], N.ZIP)]
+    ch = it.chain()
+    names = IT.chain_names(ch)
+    zs = [x for x in ch if x[0] == "zip"]
     pair_ok = False
-    if len(zips) == 1:
-        a0, i0_ = adaptors_of(f, zips[0][1]["args"][0])
-        a1, i1_ = adaptors_of(f, zips[0][1]["args"][1])
-        pair_ok = a0 == ["iter"] and sorted(a1) == ["iter_indices", "map"] and ("sfs_core::spectrum::Spectrum", "array") in i0_["fields"] and ("sfs_core::spectrum::Spectrum", "array") in i1_["fields"]
-    chk.ob("C03.b", "project/walks-every-(value,index)-pair-in-order", ok_iter and pair_ok, f.loc(nx[0][0]),
-           "the loop zips self.array.iter() with self.array.iter_indices() (both row-major over the same array), no skip/filter/rev (adaptors %s)" % ad)
-    # loop body unconditional
-    sws = an.switches_on_call_result(f, nx[0][0])
-    next_sw = sws[0][0] if sws else None
-    allowed = {next_sw, tb[1] if tb else None}
-    extra = [f.loc(b) for b in only_structural_switches(f, allowed) if f.term(b)["k"] == "switch" and not _is_dropflag_switch(f, b)]
-    chk.ob("C03.b", "project/every-cell-projected(no-conditional-skip)", not extra and next_sw is not None, f.loc(nx[0][0]),
-           "no branch inside the loop: every source cell, whatever its value, is projected (extra branches at %s)" % (extra or "none"))
+    if len(zs) == 1 and len(zs[0][2]) == 1:
+        side = zs[0][2][0]
+        def arr(pl):
+            return pl is not None and an.self_field(pl) == "array"
+        pair_ok = names == ["zip", "iter"] and sorted(IT.chain_names(side)) == ["iter_indices", "map"] and arr(ch[-1][1]) and arr(side[-1][1])
+    chk.ob("C03.b", "project/walks-every-(value,index)-pair-in-order", pair_ok, it.loc(),
+           "the cells are walked as self.array.iter() zipped with self.array.iter_indices() (both row-major over the same array), no skip/filter/rev (%s; adaptors %s)" % (it.describe(), names))
+    # body unconditional
+    loops = [x for x in its if x.kind == "loop" and x.parent is f]
+    allowed = {tb[1] if tb else None} | {x.switch_bb for x in loops}
+    extra = [f.loc(b) for b in only_structural_switches(f, allowed) if not _is_dropflag_switch(f, b)]
+    if g is not f:
+        extra += [g.loc(b) for b, t in g.switches() if not _is_dropflag_switch(g, b)]
+    chk.ob("C03.b", "project/every-cell-projected(no-conditional-skip)", not extra and it.runs_for_every_element(), it.loc(),
+           "no branch in the per-cell body and no early exit: every source cell, whatever its value, is projected (extra branches at %s)" % (extra or "none"))
     # per-iteration chain and operand roles
-    some_t = an.edge_target(f.term(next_sw), 1) if next_sw is not None else None
-    body = an.arm_region(f, next_sw, some_t) if next_sw is not None else set()
-    chain_ok = all(b in body for b in (pu[0][0], iw[0][0], au[0][0])) and f.dominates(pu[0][0], iw[0][0]) and f.dominates(iw[0][0], au[0][0])
-    item = an.call_dest_local(nx[0][1])
-    def item_field(op):
-        sl, info_ = f.slice_locals(op, through_calls=False)
-        out = set()
-        for l in sl:
-            for d in f.defs.get(l, []):
-                if d[0] == "assign" and d[3]["k"] in ("use", "ref"):
-                    p = op_place(d[3]["op"]) if d[3]["k"] == "use" else P(d[3]["place"])
-                    if p and p[0] == item:
-                        fl = [e[1] for e in p[1] if e[0] == "field"]
-                        if len(fl) >= 2:
-                            out.add(fl[1])
-        return out
-    idx_role = item_field(pu[0][1]["args"][1]) == {1}
-    w_role = item_field(iw[0][1]["args"][1]) == {0}
-    recv_ok = op_local(iw[0][1]["args"][0]) is not None and f.copy_root(op_local(iw[0][1]["args"][0])) == an.call_dest_local(pu[0][1]) and \
-        op_local(au[0][1]["args"][0]) is not None and f.copy_root(op_local(au[0][1]["args"][0])) == an.call_dest_local(iw[0][1])
-    tgt = an.arg_pointee(f, au[0][1], 1)
-    acc_ok = tgt is not None and tgt[0] == an.call_dest_local(fz[0][1])
-    chk.ob("C03.b", "project/per-cell: project_unchecked(index).into_weighted(value).add_unchecked(result)", chain_ok and idx_role and w_role and recv_ok and acc_ok, f.loc(pu[0][0]),
+    chain_ok = g.dominates(pub, iwb) and g.dominates(iwb, aub)
+    idx_role = it.elem_path(put["args"][1]) == (1,)
+    w_role = it.elem_path(iwt["args"][1]) == (0,)
+    recv_ok = op_local(iwt["args"][0]) is not None and g.copy_root(op_local(iwt["args"][0])) == an.call_dest_local(put) and \
+        op_local(aut["args"][0]) is not None and g.copy_root(op_local(aut["args"][0])) == an.call_dest_local(iwt)
+    tgt = it.outer_place(aut["args"][1])
+    acc_ok = tgt is not None and tgt[0] == an.call_dest_local(fz[0][1]) and not [e for e in tgt[1] if e[0] != "deref"]
+    chk.ob("C03.b", "project/per-cell: project_unchecked(index).into_weighted(value).add_unchecked(result)", chain_ok and idx_role and w_role and recv_ok and acc_ok, g.loc(pub),
            "chain in order=%s, index is the zipped index=%s, weight is the zipped value=%s, each step consumes the previous result=%s, accumulates into the zero result=%s" % (chain_ok, idx_role, w_role, recv_ok, acc_ok))
     # return value is the accumulator
     isu = an.calls(f, SP + "into_state_unchecked")
-    ok = len(isu) == 1 and op_local(isu[0][1]["args"][0]) is not None and f.copy_root(op_local(isu[0][1]["args"][0])) == an.call_dest_local(fz[0][1]) and an.dominated_by_edge(f, next_sw, an.edge_target(f.term(next_sw), 0), isu[0][0])
-    chk.ob("C03.b", "project/returns-accumulator-after-loop", ok, f.loc(), "Ok(result) is built from the accumulator once the iterator is exhausted")
+    after = False
+    if len(isu) == 1 and it_bb is not None:
+        after = an.dominated_by_edge(f, it.switch_bb, it.none_t, isu[0][0]) if it.kind == "loop" else (f.dominates(it_bb, isu[0][0]) and it_bb != isu[0][0])
+    ok = len(isu) == 1 and op_local(isu[0][1]["args"][0]) is not None and f.copy_root(op_local(isu[0][1]["args"][0])) == an.call_dest_local(fz[0][1]) and after
+    chk.ob("C03.b", "project/returns-accumulator-after-loop", ok, f.loc(), "Ok(result) is built from the accumulator once every cell has been visited")
     pj = chk.fn(PROJ + "Projection::project_unchecked")
     if pj is not None:
         chk.ob("C03.b", "Projection::project_unchecked/forwards-(project_from, from)", len(an.calls(pj, PROJ + "PartialProjection::project_unchecked")) == 1, pj.loc(), "checked in detail by C02.b", nontrivial=False)
@@ -679,8 +678,12 @@ def c04e(chk):
         names = sorted({(x[1]["callee"].get("path") or "").split("::")[-1] for x in info["calls"]})
         bad = [n for n in names if n in ("sort", "sort_unstable", "dedup", "rev", "reverse", "retain", "truncate", "skip", "take")]
         axis_map = any(a["k"] == "const" and a.get("fn") == "sfs_core::array::shape::Axis" for x in info["calls"] for a in x[1]["args"])
-        ok = tb is not None and not bad and axis_map
-        why = "`?`-propagated=%s, axes mapped with Axis(..)=%s, list-modifying calls=%s" % (tb is not None, axis_map, bad)
+        # the list reaches marginalize element for element: every container on the way is a Vec or a slice (a set or map in between
+        # silently drops duplicates and re-orders, hiding what the library must reject)
+        odd = sorted({f.local_ty(l)[:80] for l in sl if any(k in f.local_ty(l) for k in ("BTreeSet", "HashSet", "BTreeMap", "HashMap", "IndexSet", "IndexMap", "VecDeque", "BinaryHeap", "LinkedList"))})
+        odd += sorted({a_[:80] for x in info["calls"] for a_ in x[1]["callee"].get("args", []) if any(k in a_ for k in ("BTreeSet", "HashSet", "BTreeMap", "HashMap", "IndexSet", "IndexMap", "VecDeque", "BinaryHeap", "LinkedList"))})
+        ok = tb is not None and not bad and axis_map and not odd
+        why = "`?`-propagated=%s, axes mapped with Axis(..)=%s, list-modifying calls=%s, non-list containers on the way=%s" % (tb is not None, axis_map, bad, odd)
     chk.ob("C04.e", "view/marginalize(&axes)?", ok, f.loc(), why)
     # remove arm: the list is moved through untouched
     ok = False
@@ -696,8 +699,8 @@ def c04e(chk):
                             ok = True
     chk.ob("C04.e", "view/--marginalize-remove-passed-through", ok, f.loc(), "the remove list reaches marginalize as given: duplicates and out-of-range axes are left for the library to reject")
     import rules_view
-    flt = an.calls(f, "core::iter::traits::iterator::Iterator::filter")
-    chk.ob("C04.e", "view/--marginalize-keep->complement", len(flt) == 1, f.loc(), "keep is converted by filtering 0..dimensions() (details: C13.d)", nontrivial=False)
+    kc = rules_view.keep_complement(chk, f)
+    chk.ob("C04.e", "view/--marginalize-keep->complement", kc["complement"] and kc["range"], kc["where"], "keep is converted to the complement over 0..dimensions() (details: C13.d)", nontrivial=False)
 
 
 # ====================================================================================
